@@ -71,6 +71,10 @@ META = {
 }
 
 MODS = ["J2O.Props.C14", "J2O.GenProps.C14"]
+# process-wide state whose change across a conversion is history leakage (`_ONNX_FN_HITS` is only
+# reported: a failed conversion leaves it filled until the next successful one consumes it, and
+# nothing that reaches the model reads it)
+STATE_VERDICT_KEYS = ("in_function_build", "patch_state", "x64")
 WORKER = HERE / "c14_worker.py"
 INJECT_MODULES = [
     "jax2onnx.converter.ir_optimizations", "jax2onnx.converter.ir_builder", "jax2onnx.converter.ir_context",
@@ -683,7 +687,7 @@ def corr_refresh(chk: Check, rng: common.Rng, n: int):
     return lines, judge
 
 
-def pass_level_forest(chk: Check, rng: common.Rng, n: int) -> list:
+def pass_level_forest(chk: Optional[Check], rng: Optional[common.Rng], n: int, only_spec=None):
     """Real `remove_redundant_transpose_pairs_ir` on generated `T(a)[,T(s)] -> elementwise DAG -> T^-1`
     graphs, with the enumeration order of the sets steered: insertion vs reversed."""
     import onnx_ir as ir
@@ -713,10 +717,7 @@ def pass_level_forest(chk: Check, rng: common.Rng, n: int) -> list:
         g = ir.Graph(name="forest", inputs=[a, s], outputs=[y], nodes=nodes, opset_imports={"": 23})
         return irtools.make_model(g)
 
-    for _ in range(n):
-        spec = [rng.choice(["Mul", "Exp", "Abs", "Neg", "Add", "Sqrt"]) for _ in range(rng.randint(1, 4))]
-        if not any(op in ("Mul", "Add", "Sub") for op in spec):
-            spec[0] = "Mul"
+    def orders(spec):
         res = {}
         for mode in ("ins", "rev"):
             OSet.LOG.clear()
@@ -726,6 +727,15 @@ def pass_level_forest(chk: Check, rng: common.Rng, n: int) -> list:
             res[mode] = {"ops": [nd.op_type for nd in m.graph],
                          "out_shape": [int(d) for d in m.graph.outputs[0].shape.dims],
                          "shapes": {v.name: [int(d) for d in v.shape.dims] for nd in m.graph for v in nd.outputs}}
+        return res
+
+    if only_spec is not None:
+        return orders(only_spec)
+    for _ in range(n):
+        spec = [rng.choice(["Mul", "Exp", "Abs", "Neg", "Add", "Sqrt"]) for _ in range(rng.randint(1, 4))]
+        if not any(op in ("Mul", "Add", "Sub") for op in spec):
+            spec[0] = "Mul"
+        res = orders(spec)
         dep = res["ins"] != res["rev"]
         chk.count({"op": "pass-forest", "spec": spec, "order_dependent": dep}, nontrivial=len(spec) > 1)
         if dep:
@@ -809,8 +819,15 @@ def make_specs(rng: common.Rng, thorough: bool) -> list:
             extra = rng.sample(ok_ids, 4) + ["fn_shared", "fn_const", "t_chain", "t_dag_mul_exp", "call_params2"]
             for e in extra:
                 hist.insert(rng.randint(0, len(hist)), e)
-            for f in rng.sample(list(w.FAILING), 3) + ["fail_after_fn"]:
+            for f in rng.sample([x for x in w.FAILING if x not in w.SIBLING], 2):
                 hist.insert(rng.randint(0, len(hist)), f)
+            # a failing conversion whose failure point is inside / after function building, with the good
+            # request that uses the SAME decorated target exported before and again afterwards
+            for f, good in w.SIBLING.items():
+                i = rng.randint(1, len(hist))
+                hist.insert(i, f)
+                hist.insert(rng.randint(0, i), good)
+                hist.insert(rng.randint(i + 2, len(hist)), good)
             idx = si * n_hist + h
             specs.append({
                 "hashseed": hs,
@@ -858,10 +875,21 @@ def start_subprocesses(rng: common.Rng, thorough: bool, tmp: str):
 def collect_subprocesses(chk: Check, specs: list, futs: list):
     results = [f.result() for f in futs]
     by_req: dict = {}
+    w = _worker_mod()
+    leaks, benign = [], 0
     for ri, (job, res) in enumerate(zip(specs, results)):
         for rec in res["results"]:
             rec = dict(rec)
             rec["run"] = ri
+            if rec["id"] in w.IN_BODY and not (rec["error"] == "BodyBuildFailure" and rec.get("in_build")):
+                raise RuntimeError(f"catalogue request {rec['id']} no longer fails inside the function-body "
+                                   f"build: {rec}")
+            ch = rec.get("state_changed") or {}
+            if any(k in ch for k in STATE_VERDICT_KEYS):
+                leaks.append({"run": ri, "pos": rec["pos"], "request": rec["id"], "error": rec["error"],
+                              "changed": {k: v for k, v in ch.items() if k in STATE_VERDICT_KEYS}})
+            elif ch:
+                benign += 1
             by_req.setdefault(rec["id"], []).append(rec)
             chk.count({"op": "subprocess", "request": rec["id"], "hashseed": job["hashseed"], "pos": rec["pos"],
                        "gc": job["spec"]["gc"], "garbage": bool(job["spec"]["garbage_seed"]),
@@ -870,7 +898,9 @@ def collect_subprocesses(chk: Check, specs: list, futs: list):
     chk.info("subprocess_runs", {"processes": len(specs), "conversions": sum(len(r["results"]) for r in results),
                                  "hash_seeds": sorted({j["hashseed"] for j in specs}),
                                  "history_length": [len(j["spec"]["history"]) for j in specs]})
-    return by_req
+    chk.info("state_probe", {"conversions_probed": sum(len(r["results"]) for r in results),
+                             "leaks": leaks[:10], "benign_onnx_fn_hits_changes": benign})
+    return by_req, leaks
 
 
 def _summary_of(path: str) -> list:
@@ -973,9 +1003,43 @@ def _run_body(chk: Check, rng: common.Rng, thorough: bool, specs: list, dirs: li
                                 "diff": diff_lines(d["base"]["summary"], d["natural"]["summary"])}):
                 unlisted += 1
 
+    # ---- OBS (C'): in-process histories good -> failing -> good (failure points incl. the function-body build)
+    w = _worker_mod()
+    inproc_leaks = []
+    for fail in w.FAILING:
+        good = w.SIBLING.get(fail, "fn_shared")
+        a = convert_digest(good)
+        before = w.state_snapshot()
+        f = convert_digest(fail)
+        after = w.state_snapshot()
+        b = convert_digest(good)
+        changed = {k: [before[k], after[k]] for k in STATE_VERDICT_KEYS if before[k] != after[k]}
+        chk.count({"op": "history-after-failure", "good": good, "failing": fail, "error": f["error"],
+                   "state_changed": changed}, nontrivial=True)
+        if f["digest"] is not None:
+            raise RuntimeError(f"catalogue request {fail} was expected to fail but converted")
+        if changed:
+            inproc_leaks.append({"request": fail, "changed": changed, "where": "in-process"})
+        if a["digest"] != b["digest"]:
+            kind = classify(a, b)
+            job = {"hashseed": 0, "malloc": None,
+                   "spec": {"history": [good, fail, good], "garbage_seed": 0, "gc": "default", "preimport": []}}
+            rep = {"how": f"unpatched code, one process: export {good}, then the failing conversion {fail}, "
+                          f"then {good} again",
+                   "request": good, "kind": kind, "state_changed_by_failed_conversion": changed,
+                   "run_a": {"job": job, "pos": 0, "digest": a["digest"], "error": a["error"]},
+                   "run_b": {"job": job, "pos": 2, "digest": b["digest"], "error": b["error"]},
+                   "diff": diff_lines(a["summary"], b["summary"]),
+                   "rerun": "/venv/bin/python harness/vcheck.py C14 --replay <this file>"}
+            key = {"request": good, "site": f"history:after-failed:{fail}", "kind": kind}
+            if not chk.finding(key, f"export of {good} changes after the failed conversion {fail} in the same "
+                                    f"process ({kind})", rep):
+                unlisted += 1
+
     # ---- OBS (D): the unpatched code in subprocesses
     if True:
-        by_req = collect_subprocesses(chk, specs, futs)
+        by_req, state_leaks = collect_subprocesses(chk, specs, futs)
+        state_leaks = state_leaks + inproc_leaks
         timing["subprocesses_joined"] = round(time.time() - t0, 1)
         w = _worker_mod()
         differing = {}
@@ -989,7 +1053,13 @@ def _run_body(chk: Check, rng: common.Rng, thorough: bool, specs: list, dirs: li
         chk.info("subprocess_requests_with_differing_digests", sorted(differing))
         for rid, recs in differing.items():
             a = recs[0]
-            b = next(r for r in recs if (r["digest"], r["error"]) != (a["digest"], a["error"]))
+            pairs = [(x, y) for x in recs for y in recs
+                     if (x["digest"], x["error"]) != (y["digest"], y["error"]) and x["run"] == y["run"]
+                     and x["pos"] < y["pos"]]
+            if pairs:                                   # sharpest replay: two positions of ONE history
+                a, b = pairs[0]
+            else:
+                b = next(r for r in recs if (r["digest"], r["error"]) != (a["digest"], a["error"]))
             kind = classify(a, b)
             observed = {(r["digest"] or "ERR:" + str(r["error"])) for r in recs}
             explained = rid in culprits and observed <= legal.get(rid, set()) and \
@@ -1030,6 +1100,11 @@ def _run_body(chk: Check, rng: common.Rng, thorough: bool, specs: list, dirs: li
                                "changed loop body) or a theorem no longer checks; the digest search over hash "
                                "seeds / histories / forced enumeration orders found no differing export"},
                       name="obligation-broken", no_failing_input=True)
+    if state_leaks and unlisted == 0:
+        chk.violation({"state_leaks": state_leaks[:10],
+                       "note": "a conversion left process-wide state (_IN_FUNCTION_BUILD / _PATCH_STATE / "
+                               "jax_enable_x64) different from what it found; no differing export was found"},
+                      name="state-leak", no_failing_input=True)
     if n_corr and unlisted == 0:
         chk.violation({"correspondence": {n: v[:5] for n, v in corr_bad.items() if v},
                        "note": "the real naming/memo/registry/refresh primitives disagree with the Lean model; "
@@ -1075,6 +1150,11 @@ def replay(path: str) -> int:
         for d in diff_lines(a["summary"], b["summary"]):
             print(d)
         return 1 if a["digest"] != b["digest"] else 0
+    if "forest" in rep:
+        generate()
+        res = pass_level_forest(None, None, 0, only_spec=rep["forest"]["spec"])
+        print("insertion order:", res["ins"]["shapes"], "\nreversed order: ", res["rev"]["shapes"])
+        return 1 if res["ins"] != res["rev"] else 0
     if "repeat" in rep:
         rid = rep["repeat"]["request"]
         a = convert_digest(rid)
